@@ -77,7 +77,7 @@ def main():
             "quick_cmd": "./vcheck %s quick" % cid,
             "thorough_cmd": "./vcheck %s thorough" % cid,
             "evidence_file": "/verif/evidence/%s.json" % cid,
-            "replay_cmd_template": "cat {path}",
+            "replay_cmd_template": "./vcheck replay {path}",
             "engine": engine,
             "level_claimed": {"category": cat, "text": text, "design_ref": ref},
             "level_note": note,
